@@ -379,6 +379,20 @@ def order_programs(rng, n=None):
     for tag, pre, body in si:
         out.append((pre + 'empty @is_you() { %s }' % body, [], 'string_index_' + tag))
     if n is not None and len(out) > n: out = rng.sample(out, n)
+    # element assignment whose right-hand side changes *another* element of the same array through a call (for bool arrays the
+    # neighbours share a byte: a byte read before the right-hand side ran is stale).  Always included.
+    for el, v, show in (('bool', 'true', 'write(a[k]);'), ('byte', '7', 'write(a[k] is int);'), ('int', '7', 'write(a[k]);')):
+        for storage in ('local', 'global', 'vla'):
+            decl = {'local': '%s[] a = [%s];' % (el, ', '.join(['false' if el == 'bool' else '0'] * 16)), 'global': '', 'vla': '%s a[16]; for (int z = 0; z < 16; z += 1) { a[z] = %s; }' % (el, 'false' if el == 'bool' else '0')}[storage]
+            g = ('%s[] a = [%s];\n' % (el, ', '.join(['false' if el == 'bool' else '0'] * 16))) if storage == 'global' else ''
+            par = '' if storage == 'global' else '%s[] f, ' % el
+            arg = '' if storage == 'global' else 'a, '
+            tgt = 'a' if storage == 'global' else 'f'
+            pre = g + '%s mark(%sint j) { %s[j] = %s; return %s; }\n' % (el, par, tgt, v, v)
+            body = ('%s a[3] = mark(%s12); a[2] = mark(%s5); a[9] = mark(%s8); a[mark2(%s1)] = mark(%s0); '
+                    'for (int k = 0; k < 16; k += 1) { %s }' % (decl, arg, arg, arg, arg, arg, show))
+            pre += 'int mark2(%sint j) { %s[j] = %s; return 6; }\n' % (par, tgt, v)
+            out.append((pre + 'empty @is_you() { %s }' % body, [], 'elem_rhs_effect_%s_%s' % (el, storage)))
     return out
 
 
